@@ -15,7 +15,8 @@
 (* engine = [name, desc, inputs, outputs, blocks]                          *)
 (* input  = [name, desc, enabled, min, max, lockRange, terms]              *)
 (* output = input + [aggr, defuzz : [cls, res, type], default, lockPrev]   *)
-(* term   = [name, cls, p : numerals, h : numeral, f : formula words]      *)
+(* term   = [name, cls, p : numerals, h : numeral, f : formula words,      *)
+(*           fv : a Function term's own variables, Seq([n, v])]            *)
 (* block  = [name, desc, enabled, conj, disj, impl,                         *)
 (*           act : [cls, n, thr, cmp], rules : Seq([toks, w])]             *)
 (***************************************************************************)
@@ -134,14 +135,14 @@ NaNs(k) == [j \in 1..k |-> NanN]
 \* Term.configure: the parameters, then an optional height
 TermOf(val) ==
   LET nm == val[1].s  cls == val[2].s  rest == SubSeq(val, 3, Len(val))  a == Arity[cls] IN
-  IF cls = "Function" THEN [name |-> nm, cls |-> cls, p |-> <<>>, h |-> OneN, f |-> Strs(rest)]
-  ELSE IF rest = <<>> THEN [name |-> nm, cls |-> cls, p |-> (IF a > 0 THEN NaNs(a) ELSE <<>>), h |-> OneN, f |-> <<>>]
-  ELSE IF cls = "Linear" THEN [name |-> nm, cls |-> cls, p |-> Nums(rest), h |-> OneN, f |-> <<>>]
+  IF cls = "Function" THEN [name |-> nm, cls |-> cls, p |-> <<>>, h |-> OneN, f |-> Strs(rest), fv |-> <<>>]
+  ELSE IF rest = <<>> THEN [name |-> nm, cls |-> cls, p |-> (IF a > 0 THEN NaNs(a) ELSE <<>>), h |-> OneN, f |-> <<>>, fv |-> <<>>]
+  ELSE IF cls = "Linear" THEN [name |-> nm, cls |-> cls, p |-> Nums(rest), h |-> OneN, f |-> <<>>, fv |-> <<>>]
   ELSE IF cls = "Discrete" THEN
-         (IF Len(rest) % 2 = 0 THEN [name |-> nm, cls |-> cls, p |-> Nums(rest), h |-> OneN, f |-> <<>>]
-          ELSE [name |-> nm, cls |-> cls, p |-> Nums(SubSeq(rest, 1, Len(rest) - 1)), h |-> rest[Len(rest)].n, f |-> <<>>])
-  ELSE IF Len(rest) = a THEN [name |-> nm, cls |-> cls, p |-> Nums(rest), h |-> OneN, f |-> <<>>]
-  ELSE [name |-> nm, cls |-> cls, p |-> Nums(SubSeq(rest, 1, a)), h |-> rest[a + 1].n, f |-> <<>>]     \* Len(rest) = a + 1 (anything else is rejected)
+         (IF Len(rest) % 2 = 0 THEN [name |-> nm, cls |-> cls, p |-> Nums(rest), h |-> OneN, f |-> <<>>, fv |-> <<>>]
+          ELSE [name |-> nm, cls |-> cls, p |-> Nums(SubSeq(rest, 1, Len(rest) - 1)), h |-> rest[Len(rest)].n, f |-> <<>>, fv |-> <<>>])
+  ELSE IF Len(rest) = a THEN [name |-> nm, cls |-> cls, p |-> Nums(rest), h |-> OneN, f |-> <<>>, fv |-> <<>>]
+  ELSE [name |-> nm, cls |-> cls, p |-> Nums(SubSeq(rest, 1, a)), h |-> rest[a + 1].n, f |-> <<>>, fv |-> <<>>]     \* Len(rest) = a + 1 (anything else is rejected)
 \* Rule.parse: tokens up to `with`, then the weight
 RuleOf(val) ==
   LET n == Len(val) IN
@@ -193,12 +194,14 @@ ImportFrom(st, lines) == IF lines = <<>> THEN st ELSE ImportFrom(ImportLine(st, 
 Import(lines) == ImportFrom([e |-> EmptyEngine, comp |-> ""], lines).e
 
 \* ---- what a text can hold: heights and weights within the comparison tolerance of 1 are 1 ------------------
-CanonTerm(t, dec) == IF HasHeight(t.cls) /\ CloseOne(t.h, dec) THEN [t EXCEPT !.h = OneN] ELSE t
-CanonVar(v, dec) == [v EXCEPT !.terms = [j \in 1..Len(v.terms) |-> CanonTerm(v.terms[j], dec)]]
+\* (the language has no syntax for the own variables of a Function term: a text cannot hold them)
+CanonTermW(t, dec, dropfv) == LET u == IF HasHeight(t.cls) /\ CloseOne(t.h, dec) THEN [t EXCEPT !.h = OneN] ELSE t IN IF dropfv THEN [u EXCEPT !.fv = <<>>] ELSE u
+CanonVarW(v, dec, dropfv) == [v EXCEPT !.terms = [j \in 1..Len(v.terms) |-> CanonTermW(v.terms[j], dec, dropfv)]]
 CanonBlock(b, dec) == [b EXCEPT !.rules = [j \in 1..Len(b.rules) |-> IF CloseOne(b.rules[j].w, dec) THEN [b.rules[j] EXCEPT !.w = OneN] ELSE b.rules[j]]]
-Canon(e, dec) == [e EXCEPT !.inputs = [j \in 1..Len(e.inputs) |-> CanonVar(e.inputs[j], dec)],
-                           !.outputs = [j \in 1..Len(e.outputs) |-> CanonVar(e.outputs[j], dec)],
-                           !.blocks = [j \in 1..Len(e.blocks) |-> CanonBlock(e.blocks[j], dec)]]
+CanonW(e, dec, dropfv) == [e EXCEPT !.inputs = [j \in 1..Len(e.inputs) |-> CanonVarW(e.inputs[j], dec, dropfv)],
+                                    !.outputs = [j \in 1..Len(e.outputs) |-> CanonVarW(e.outputs[j], dec, dropfv)],
+                                    !.blocks = [j \in 1..Len(e.blocks) |-> CanonBlock(e.blocks[j], dec)]]
+Canon(e, dec) == CanonW(e, dec, TRUE)
 
 \* ---- meaning-preserving variants of a text -------------------------------------------------------------------
 \* blocks: maximal runs starting at a header line
